@@ -299,7 +299,7 @@ def fuse_prov(ctx: Ctx) -> None:
     ctx.need(po and cp and bs, "fuse(): constructor calls not found")
     field_from(f, succ, po[0], "target_array", (".target_array",))
     field_from(f, succ, po[0], "num_tasks", (".num_tasks",))
-    field_from(f, succ, cp[0], "mappable", (".pipeline.mappable",), pos=2)
+    field_from(f, succ, cp[0], "mappable", (".pipeline.mappable",), pos=2, props=["C02", "C05", "C13", "C11"])
     field_from(f, succ, bs[0], "writes_map", (".pipeline.config.writes_map",), pos=5)
     # the "must be written: never fuse into a consumer" mark of the successor (set by the
     # store operation) survives fusion with its predecessors
@@ -735,6 +735,14 @@ def nest_dispatch(ctx: Ctx) -> None:
                 v = r.stmt.value
                 ok1 = isinstance(v, ast.Call) and FA in repo.callee_quals(v, k1) and len(v.args) == 1 and unparse(v.args[0]) == k1.params[0] and unparse(kwarg(v, "output_name")) == f"{k1.params[0]}.name"
     ctx.ob(k1, None, ok1, "key dispatcher: a key whose array has no predecessor key function passes through unchanged", sel="dispatch:key-passthrough")
+    # every other return is a fresh call of the predecessor's key function — never a value kept
+    # from an earlier call (the result may hold a single-use block iterator)
+    for r in c1.returns():
+        v = r.stmt.value
+        if isinstance(v, ast.Call) and FA in repo.callee_quals(v, k1):
+            continue
+        fresh = isinstance(v, ast.Call) and isinstance(v.func, ast.Subscript) and unparse(v.func.value) == k1.params[1]
+        ctx.ob(k1, r.stmt, fresh, "key dispatcher: the predecessor's key function is called afresh for every occurrence of a key" + ("" if fresh else f" — it returns `{unparse(v, 40)}`: a remembered result is shared between occurrences, and with it a single-use iterator of blocks"), sel="dispatch:key-fresh-call")
     k2 = repo.get(f"{A.PBW}.apply_blockwise_func")
     c2 = cfg_of(k2)
     ok2 = False
